@@ -52,6 +52,10 @@ def run(ck: Checker, prog: Program, tier: str):
     with ck.borrow(C01, "C17.R1+"):
         ck.guard(C01._r7, ck, prog)
     ck.guard(_settings_delivery, ck, prog)
+    # the density is divided by the sampling rate: 1/dt exactly (rule of C10)
+    from . import c10
+    with ck.borrow(c10, "C17.R1+"):
+        ck.guard(c10._filter_design, ck, prog)
 
 
 def _settings_delivery(ck: Checker, prog: Program):
